@@ -85,7 +85,13 @@ fn tiny_with(stretch: Vec<BlockSpec>) -> Universe {
     u.extend(
         1,
         Some(FIRST + 1),
-        &[block(vec![tx(vec![out("x3", A, Orchard, External, 45_000)])]), block(vec![tx(vec![spend("a1"), out("x4", A, Sapling, Internal, 55_000)])]), BlockSpec::default()],
+        // (the branch starts the Ironwood tree with OTHER commitments than the main chain does at the
+        // same height: a rewind to the fork point lands on an empty-tree Ironwood checkpoint)
+        &[
+            block(vec![tx(vec![out("x3", A, Orchard, External, 45_000), out("x2i", A, Ironwood, External, 12_000)])]),
+            block(vec![tx(vec![spend("a1"), out("x4", A, Sapling, Internal, 55_000)])]),
+            BlockSpec::default(),
+        ],
         204,
     );
     // second alternative branch, forking after S0 - inside Orchard shard 0, which both branches then
